@@ -40,3 +40,20 @@ Theorem C05_done_needs_end_of_message : forall c k sw, chk_server_done c k sw = 
 Proof. exact chk_server_done_holds. Qed.
 Print Assumptions C05_h1_incomplete_closes.
 Print Assumptions C05_done_needs_end_of_message.
+
+(* HTTP/2: when the stream is closed without its body having been ended (the application failed or
+   returned mid-response) the stream is marked aborted: what is already buffered is still sent, the
+   send task is woken, and the iteration that empties the buffer writes RST_STREAM -- never
+   END_STREAM, so the client cannot take the truncated response for a complete one. *)
+From HV Require Import model.H2Send proofs.H2Send_proofs.
+Theorem C05_h2_abort_marks : forall t s rest,
+  s_inbufs (strms t s) = true -> s_tree (strms t s) = true -> b_complete (s_buf (strms t s)) = false ->
+  let x := strms (closing_state t s rest) s in
+  s_abort x = true /\ b_complete (s_buf x) = true /\ s_blocked x = false /\ b_data (s_buf x) = b_data (s_buf (strms t s))
+  /\ has_data (closing_state t s rest) = true.
+Proof. exact closing_marks_abort. Qed.
+Theorem C05_h2_aborted_is_never_ended : forall t s fs,
+  s_abort (strms t s) = true -> writes t (send_data t s) fs -> ~ In (FEnd s) fs.
+Proof. exact aborted_is_never_ended. Qed.
+Print Assumptions C05_h2_abort_marks.
+Print Assumptions C05_h2_aborted_is_never_ended.
